@@ -572,8 +572,8 @@ int vd_parse_main(int argc, char **argv)
     if (default_hooks) cJSON_InitHooks(NULL); else cJSON_InitHooks(&hooks);     /* default: the library's own malloc/free/realloc, redirected to the tracking allocator */
     region_init();
     vd_install_handlers();
-    deep_cases();
-    breadth_cases();
+    VD.curline = (char*)"# driver-built cases: nesting at the limit, siblings beyond the limit"; deep_cases();
+    breadth_cases(); VD.curline = NULL;
     if (!default_hooks) reentrancy_cases();
     if (default_hooks) cJSON_InitHooks(NULL); else cJSON_InitHooks(&hooks);
     while ((len = getline(&line, &cap, stdin)) > 0 || (len < 0 && errno == EINTR && !feof(stdin) && (clearerr(stdin), 1))) {
